@@ -122,7 +122,9 @@ namespace plan
     else if (name == "cut")
       op.a = {static_cast<long>(r.below(2))};
     else if (name == "svclass")
-      op.a = {static_cast<long>(r.below(2)), static_cast<long>(r.below(4))};
+      op.a = {static_cast<long>(r.below(2)), static_cast<long>(r.below(4)), static_cast<long>(r.chance(1, 3) ? 1 + 2 * r.below(3) : 0)};
+    else if (name == "origin")
+      op.a = {static_cast<long>(r.below(5))};
     else if (name == "rr")
       op.a = {static_cast<long>(r.below(6))};
     else if (name == "use")
@@ -323,6 +325,8 @@ namespace plan
       w.add("goal", 10), w.add("fact", 8), w.add("disj", prop == "C02" || prop == "C03" || prop == "C19" ? 5 : 2), w.add("pin", prop == "C19" ? 5 : 1);
     if (sv)
       w.add("svinst", 5), w.add("goal", 8), w.add("fact", 6), w.add("horizon", 2), w.add("ovar", 2);
+    if (causal || sv || rr)
+      w.add("origin", prop == "C06" ? 3 : 1);
     if (rr)
       w.add("rr", 5), w.add("use", 14), w.add("horizon", 2), w.add("disj", 6), w.add("goal", 4);
     else if (logic)
